@@ -32,6 +32,37 @@ fn weights(prop: Prop) -> Vec<(AKind, u32)> {
             (SyncBroker, 2),
             (Yield, 6),
         ],
+        Prop::C04 => vec![
+            (CreateObject, 6),
+            (CreateService, 10),
+            (SvcEmit, 8),
+            (SvcDestroy, 1),
+            (CreateProxy, 5),
+            (Subscribe, 4),
+            (Unsubscribe, 2),
+            (SubscribeAll, 2),
+            (DrainEvents, 3),
+            (EventWaiter, 2),
+            (DropProxy, 2),
+            (EventRound, 14),
+            (SyncBroker, 1),
+            (Yield, 5),
+        ],
+        Prop::C10 => vec![
+            (CreateObject, 6),
+            (DestroyObject, 2),
+            (CreateService, 6),
+            (ListenerCreate, 3),
+            (ListenerAddFilter, 4),
+            (ListenerStart, 3),
+            (ListenerStop, 1),
+            (ListenerDrain, 2),
+            (ListenerWaiter, 1),
+            (ListenerDrop, 1),
+            (ListenerRound, 14),
+            (SyncBroker, 1),
+            (Yield, 5),
+        ],
         Prop::C05 => vec![
             (ChanSession, 30),
             (ChanCreate, 3),
@@ -61,6 +92,8 @@ fn weights(prop: Prop) -> Vec<(AKind, u32)> {
             (EventWaiter, 3),
             (ListenerWaiter, 2),
             (DiscWaiter, 1),
+            (EventRound, 3),
+            (ListenerRound, 2),
             (Call, 14),
             (ChanSession, 5),
             (ChanCreate, 4),
